@@ -7,7 +7,8 @@ pat=${1:-.}; rc=0
 for d in harmless/*/; do
   id=$(basename $d); echo "$id" | grep -Eq "$pat" || continue
   WT=/tmp/harmwt_$$; git -C /repo worktree add -q --detach $WT HEAD || exit 9
-  if ! git -C $WT apply $PWD/$d/patch.diff 2>/dev/null && ! git -C $WT apply --3way $PWD/$d/patch.diff 2>/dev/null; then echo "NOAPPLY  $id"; git -C /repo worktree remove --force $WT; continue; fi
+  patch=$PWD/$d/patch.diff; [ -f $PWD/$d/patch.rebased.diff ] && patch=$PWD/$d/patch.rebased.diff     # rebased: a later fix: commit rewrote a touched site
+  if ! git -C $WT apply $patch 2>/dev/null && ! git -C $WT apply --3way $patch 2>/dev/null; then echo "NOAPPLY  $id"; git -C /repo worktree remove --force $WT; continue; fi
   props=${id%%-*}; [ "$props" = ALL ] && props="C01 C08 C14 C16 C18"
   for p in $props; do
     out=$(VERIF_REPO=$WT ./check $p 2>&1); ec=$?
